@@ -8,6 +8,7 @@ import TshVerif.Model.ConvBash
 import TshVerif.Model.ConvBatch
 import TshVerif.Model.Parser
 import TshVerif.Model.Cli
+import TshVerif.Model.Wf
 
 open Tsh
 
@@ -31,10 +32,14 @@ def withProgram (sexp : String) (f : Program → String) : String :=
     | none => "BADAST"
     | some p => f p
 
+/-- answer tag of a successful emission: the theorems about emitted scripts assume `wfStmts` of the
+    AST, so an AST that is not well-formed is reported (it shows up as a correspondence break) -/
+def wfTag (p : Program) : String := if wfStmts p then "OK " else "NOTWF "
+
 def handleBash (sexp : String) : String :=
   withProgram sexp fun p =>
     match Bash.emitBash p with
-    | .ok s => "OK " ++ hexOfString s
+    | .ok s => wfTag p ++ hexOfString s
     | .error _ => "ERR"
     | .panic _ => "PANIC"
 
@@ -84,7 +89,7 @@ def handleFullBash (args : List String) : String :=
     match Parser.parse fs m with
     | .ok p _ =>
       match Bash.emitBash p.body with
-      | .ok s => "OK " ++ hexOfString s
+      | .ok s => wfTag p.body ++ hexOfString s
       | .error _ => "ERR"
       | .panic _ => "PANIC"
     | .error => "ERR"
@@ -135,7 +140,7 @@ def handleFullBatch (args : List String) : String :=
     match Parser.parse fs m with
     | .ok p _ =>
       match Batch.emitBatch p.body with
-      | .ok s => "OK " ++ hexOfString s
+      | .ok s => wfTag p.body ++ hexOfString s
       | .error _ => "ERR"
       | .panic _ => "PANIC"
     | .error => "ERR"
